@@ -327,6 +327,41 @@ func c05LibraryContexts(c C05Case, mask int, k, full interface{}, r *Rec) *Viola
 	if o := Safe(func() (eval.Value, error) { return e.TryEval(ctx) }); o.Panic != nil || o.Err != nil || !m.EqualVal(o.Val, full) {
 		return Violf("C05: after Ctx.Set supplied the missing variables TryEval does not return the value of the expression\nconfig=%s src=%s\nTryEval=%v\nvalue=%s\nbinding=%v", maskName(mask), src, o, refString(full, nil), describeU(u))
 	}
+	// (slice, placeholders) keys 1..n, the context built with the available values and the DNE marker for the
+	// others (the documented way of creating an unavailable slot); Kleene oracle; then Ctx.Set fills them
+	// in on the same context and TryEval returns the value of the expression
+	{
+		up := *u
+		up.RegMode, up.Decoys = RegGetOrReg, false
+		ccP, eP, v := compile(&up)
+		if v != nil {
+			return v
+		}
+		withMarkers := map[string]interface{}{}
+		for n, val := range availVals {
+			withMarkers[n] = val
+		}
+		for _, n := range names {
+			if !avail[n] {
+				withMarkers[n] = eval.DNE
+			}
+		}
+		ctxP, v := safeNewCtx("C05", ccP, withMarkers)
+		if v != nil {
+			return v
+		}
+		if v := check("slice-backed-with-DNE-placeholders", eP, ctxP, ccP.VariableKeyMap); v != nil {
+			return v
+		}
+		for _, n := range names {
+			if !avail[n] {
+				_ = ctxP.Set(ccP.VariableKeyMap[n], n, u.Var(n).Val.X)
+			}
+		}
+		if o := Safe(func() (eval.Value, error) { return eP.TryEval(ctxP) }); o.Panic != nil || o.Err != nil || !m.EqualVal(o.Val, full) {
+			return Violf("C05: after Ctx.Set replaced the DNE placeholders (%T) TryEval does not return the value of the expression\nconfig=%s src=%s\nTryEval=%v\nvalue=%s\nbinding=%v", ctxP.VariableFetcher, maskName(mask), src, o, refString(full, nil), describeU(u))
+		}
+	}
 	// (slice) available variables first, context from the smaller config
 	us := *u
 	us.RegMode, us.Vars, us.Decoys = RegGetOrReg, nil, false // (nothing may be registered after the unavailable variables)
